@@ -402,7 +402,10 @@ int main(int argc, char **argv)
 	    t = cf_gen(&rng, depth, &budget, plain);
 	    if (c % 7 == 3) {
 		/* make sure the deepest shape occurs */
-		t = cf_chain(5, vt_below(&rng, 32), cf_pick(&rng, plain, 0), t);
+		int shape = vt_below(&rng, 32);
+		int key = cf_pick(&rng, plain, 0);
+
+		t = cf_chain(5, shape, key, t);
 		if (cf_tree_depth(t) > 6)
 		    t = t->kids[0];
 	    }
